@@ -512,6 +512,7 @@ func startsWithALPH(assume map[string]bool, path string) bool {
 const muxFrameDomainDoc = "frame data that starts with 'ALPH' but is shorter than 12 bytes, or whose ALPH header declares more bytes than the data holds, contains no bitstream (frames are VP8/VP8L bitstreams with an optional well-formed ALPH prefix)"
 
 func runC14(c *Ctx) {
+	c.Rule("R3 walk-to-end: a chunk walk of the demuxer never returns successfully from inside the loop")
 	c.Rule("R1/R2 (S7 loop facts): every chunk-walking loop of mux.Demuxer and container.Parser (a loop that reads a FourCC at its cursor and a 32-bit size S four bytes further) advances its cursor by 8 + S + (S odd ? 1 : 0) in every input class, except where the walker itself found that the pad byte lies beyond the data; every slice taken at cursor+8 with a variable length has length exactly S")
 	c.Rule("W-layout (S7): each container writer is executed symbolically for every class of inputs (presence and parity of every blob, frame payload shapes, still/animated) - the output is obtained as a sequence of pieces with symbolic lengths; W1: the RIFF size field equals the bytes that follow; W2: the pieces parse as complete chunks (declared size = payload written, pad byte iff odd, ANMF = 16-byte header + complete sub-chunks); W3: chunk order, VP8X flags vs chunks written, metadata payloads are whole caller blobs")
 	c.NotCovered("what the demuxer/parser read back (see R rules), values of offsets/durations/dimensions inside headers, rejection of invalid muxer states (validate is not followed), per-frame conditions are explored with all frames in the same class")
